@@ -78,6 +78,30 @@ def showObs (o : TxObs) (infos : List RcptInfo) : String :=
   " status:" ++ ",".intercalate (sortStr (o.statuses.map (fun p => s!"{p.1}={okStr p.2}"))) ++
   " srv:" ++ ",".intercalate (sortStr (o.delivered.map (showWire infos)))
 
+/-- spelling forms of a pipeline address token `<number>[<form>]` (other spellings of one mailbox:
+letter case, U-label/A-label domain, NFC/NFD); two tokens are the same ADDRESS iff number and form agree. -/
+def pipeForms : List Char := ['u', 'U', 'D', 'i', 'I', 'x', 'X', 'c', 'd', 'C']
+
+/-- `<number>[<form>]` → key `number * 16 + (index of the form, 0 = none)`. -/
+def parseTok (s : String) : Option Nat :=
+  let cs := s.toList
+  let ds := cs.takeWhile Char.isDigit
+  match cs.dropWhile Char.isDigit with
+  | [] => (String.ofList ds).toNat?.map (· * 16)
+  | [f] =>
+    match pipeForms.idxOf? f with
+    | some i => (String.ofList ds).toNat?.map (· * 16 + i + 1)
+    | none => none
+  | _ => none
+
+/-- the canonical name of an address key: `c<token>` for numbers below 10 (client recipients), else `e<token>` -/
+def tokName (k : Nat) : String :=
+  let n := k / 16
+  let f := match k % 16 with
+    | 0 => ""
+    | i + 1 => match pipeForms[i]? with | some c => String.singleton c | none => "?"
+  (if n < 10 then "c" else "e") ++ toString n ++ f
+
 def handle : List String → String
   | ["remote", utf8, txs] =>
     match (txs.splitOn ";").mapM parseTx with
@@ -95,24 +119,25 @@ def handle : List String → String
   | "pipe" :: spec :: fails :: _place =>
     -- spec: <client>:<eff>+<eff>,... ; the target reports one status per effective recipient in
     -- AddRcpt order; the collector translates through OriginalRcpts (later entries overwrite).
-    let failIds := if fails == "-" then [] else (fails.splitOn ",").filterMap String.toNat?
+    let failIds := if fails == "-" then [] else (fails.splitOn ",").filterMap parseTok
     let parts := spec.splitOn ","
     let entries : List (Nat × List Nat) := parts.filterMap (fun p =>
       match p.splitOn ":" with
       | [c, es] => do
-        let c ← c.toNat?
-        let es := if es == "" then [] else (es.splitOn "+").filterMap String.toNat?
+        let c ← parseTok c
+        let es := if es == "" then [] else (es.splitOn "+").filterMap parseTok
         pure (c, es)
       | _ => none)
     -- OriginalRcpts as built by AddRcpt: for each rewritten effective address, last writer wins
     let orig : List (Nat × Nat) := (entries.flatMap (fun e => e.2.map (fun x => (x, e.1)))).reverse
     -- effective recipients in AddRcpt order (an unrewritten client recipient is its own effective
-    -- recipient); ids below 10 are client-supplied addresses, also when they occur as a rewrite result
+    -- recipient); numbers below 10 are client-supplied addresses, also when they occur as a rewrite
+    -- result; a key is an address STRING (another spelling of the same mailbox is another key), the
+    -- same client token may occur several times (the client sent the address twice)
     let effs : List Nat := entries.flatMap (fun e => if e.2.isEmpty then [e.1] else e.2)
     let sts := effs.map (fun x =>
       let k := translate orig x          -- statusCollector.SetStatus: ONE look-up in OriginalRcpts
-      let nm := if k < 10 then s!"c{k}" else s!"e{k}"
-      nm ++ "=" ++ okStr (!failIds.contains x))
+      tokName k ++ "=" ++ okStr (!failIds.contains x))
     ",".intercalate (sortStr sts)
   | _ => "bad-op"
 
